@@ -1,2 +1,564 @@
 (* The tree-bin read-write lock (C11): mutual exclusion, no lost wake-up, deadlock freedom. *)
 From Flurry Require Import Model.TreeLock.
+From Coq Require Import Lia List ZArith Bool Arith.
+Import ListNotations.
+Open Scope Z_scope.
+
+(* ------------------------------------------------------------------------------------ *)
+(* 1. Bit-level facts about lock_state values of the form 4*r + 2*w + x                  *)
+(* ------------------------------------------------------------------------------------ *)
+
+Lemma bits_decomp r w x :
+  0 <= r -> (w = 0 \/ w = 1) -> (x = 0 \/ x = 1) ->
+  Z.land (4 * r + 2 * w + x) 3 = 2 * w + x /\
+  Z.land (4 * r + 2 * w + x) (-3) = 4 * r + x /\
+  Z.land (4 * r + 2 * w + x) 2 = 2 * w /\
+  Z.lor (4 * r + 2 * w + x) 2 = 4 * r + 2 + x.
+Proof.
+  intros Hr [-> | ->] [-> | ->]; destruct r as [|p|p]; try lia; cbn; repeat split; reflexivity.
+Qed.
+
+Lemma hww_spec r w x :
+  0 <= r -> (w = 0 \/ w = 1) -> (x = 0 \/ x = 1) ->
+  has_writer_or_waiter (4 * r + 2 * w + x) = negb (2 * w + x =? 0).
+Proof.
+  intros Hr Hw Hx. unfold has_writer_or_waiter, WAITER, WRITER.
+  change (Z.lor 2 1) with 3. destruct (bits_decomp r w x Hr Hw Hx) as (-> & _). reflexivity.
+Qed.
+
+Lemma owb_spec r w x :
+  0 <= r -> (w = 0 \/ w = 1) -> (x = 0 \/ x = 1) ->
+  only_waiter_bit (4 * r + 2 * w + x) = (4 * r + x =? 0).
+Proof.
+  intros Hr Hw Hx. unfold only_waiter_bit, WAITER.
+  change (Z.lnot 2) with (-3). destruct (bits_decomp r w x Hr Hw Hx) as (_ & -> & _). reflexivity.
+Qed.
+
+Lemma wbc_spec r w x :
+  0 <= r -> (w = 0 \/ w = 1) -> (x = 0 \/ x = 1) ->
+  waiter_bit_clear (4 * r + 2 * w + x) = (2 * w =? 0).
+Proof.
+  intros Hr Hw Hx. unfold waiter_bit_clear, WAITER.
+  destruct (bits_decomp r w x Hr Hw Hx) as (_ & _ & -> & _). reflexivity.
+Qed.
+
+Lemma lor_waiter_spec r w x :
+  0 <= r -> (w = 0 \/ w = 1) -> (x = 0 \/ x = 1) ->
+  Z.lor (4 * r + 2 * w + x) WAITER = 4 * r + 2 + x.
+Proof.
+  intros Hr Hw Hx. unfold WAITER.
+  destruct (bits_decomp r w x Hr Hw Hx) as (_ & _ & _ & ->). reflexivity.
+Qed.
+
+Lemma reader_waiter_val : Z.lor READER WAITER = 6.
+Proof. reflexivity. Qed.
+
+(* the Prop-level readings asked for in the design *)
+Lemma hww_iff r w x :
+  0 <= r -> (w = 0 \/ w = 1) -> (x = 0 \/ x = 1) ->
+  has_writer_or_waiter (4 * r + 2 * w + x) = true <-> (w = 1 \/ x = 1).
+Proof.
+  intros Hr Hw Hx. rewrite hww_spec by assumption.
+  rewrite negb_true_iff, Z.eqb_neq. lia.
+Qed.
+
+Lemma owb_iff r w x :
+  0 <= r -> (w = 0 \/ w = 1) -> (x = 0 \/ x = 1) ->
+  only_waiter_bit (4 * r + 2 * w + x) = true <-> (r = 0 /\ x = 0).
+Proof.
+  intros Hr Hw Hx. rewrite owb_spec by assumption. rewrite Z.eqb_eq. lia.
+Qed.
+
+Lemma wbc_iff r w x :
+  0 <= r -> (w = 0 \/ w = 1) -> (x = 0 \/ x = 1) ->
+  waiter_bit_clear (4 * r + 2 * w + x) = true <-> w = 0.
+Proof.
+  intros Hr Hw Hx. rewrite wbc_spec by assumption. rewrite Z.eqb_eq. lia.
+Qed.
+
+Lemma last_reader_iff r w x :
+  0 <= r -> (w = 0 \/ w = 1) -> (x = 0 \/ x = 1) ->
+  (4 * r + 2 * w + x =? Z.lor READER WAITER) = true <-> (r = 1 /\ w = 1 /\ x = 0).
+Proof.
+  intros Hr Hw Hx. rewrite reader_waiter_val, Z.eqb_eq. lia.
+Qed.
+
+(* ------------------------------------------------------------------------------------ *)
+(* 2. Lists: replacing one element, sums/counts over it, the thread table                *)
+(* ------------------------------------------------------------------------------------ *)
+
+Definition setnth {A} (i : nat) (x : A) (l : list A) : list A :=
+  firstn i l ++ x :: skipn (S i) l.
+
+Fixpoint sumf {A} (f : A -> nat) (l : list A) : nat :=
+  match l with [] => 0%nat | a :: l' => (f a + sumf f l')%nat end.
+
+Lemma setnth_cons {A} (a x : A) i l : setnth (S i) x (a :: l) = a :: setnth i x l.
+Proof. reflexivity. Qed.
+
+Lemma length_setnth {A} i (x : A) l : (i < length l)%nat -> length (setnth i x l) = length l.
+Proof.
+  revert i; induction l as [|a l IH]; intros i Hi; simpl in Hi; [lia|].
+  destruct i as [|i]; [reflexivity|].
+  rewrite setnth_cons. simpl. rewrite IH by lia. reflexivity.
+Qed.
+
+Lemma nth_setnth_same {A} i (x d : A) l : (i < length l)%nat -> nth i (setnth i x l) d = x.
+Proof.
+  revert i; induction l as [|a l IH]; intros i Hi; simpl in Hi; [lia|].
+  destruct i as [|i]; [reflexivity|].
+  rewrite setnth_cons. simpl. apply IH. lia.
+Qed.
+
+Lemma nth_setnth_other {A} i j (x d : A) l :
+  (i < length l)%nat -> i <> j -> nth j (setnth i x l) d = nth j l d.
+Proof.
+  revert i j; induction l as [|a l IH]; intros i j Hi Hij; simpl in Hi; [lia|].
+  destruct i as [|i].
+  - destruct j as [|j]; [congruence|]. reflexivity.
+  - rewrite setnth_cons. destruct j as [|j]; [reflexivity|]. simpl. apply IH; lia.
+Qed.
+
+Lemma sumf_setnth {A} (f : A -> nat) i x d l :
+  (i < length l)%nat ->
+  (sumf f (setnth i x l) + f (nth i l d) = sumf f l + f x)%nat.
+Proof.
+  revert i; induction l as [|a l IH]; intros i Hi; simpl in Hi; [lia|].
+  destruct i as [|i].
+  - unfold setnth. simpl. lia.
+  - rewrite setnth_cons. simpl. specialize (IH i ltac:(lia)). lia.
+Qed.
+
+Lemma Forall_setnth {A} (P : A -> Prop) i x l :
+  Forall P l -> P x -> Forall P (setnth i x l).
+Proof.
+  intros Hl Hx. revert i. induction Hl as [|a l Ha Hl IH]; intros i.
+  - unfold setnth. destruct i; simpl; constructor; auto.
+  - destruct i as [|i].
+    + unfold setnth. simpl. constructor; auto.
+    + rewrite setnth_cons. constructor; auto.
+Qed.
+
+(* the two thread-table lemmas *)
+Lemma upd_thr c t p : thr (upd c t p) = setnth t p (thr c).
+Proof. reflexivity. Qed.
+
+Lemma get_thr_upd_same c t p :
+  (t < length (thr c))%nat -> get_thr (upd c t p) t = p.
+Proof. intros Ht. unfold get_thr. rewrite upd_thr. apply nth_setnth_same. exact Ht. Qed.
+
+Lemma get_thr_upd_other c t t' p :
+  (t < length (thr c))%nat -> t <> t' -> get_thr (upd c t p) t' = get_thr c t'.
+Proof. intros Ht Hne. unfold get_thr. rewrite upd_thr. apply nth_setnth_other; assumption. Qed.
+
+(* configurations whose thread table is "writer :: readers" *)
+Definition mk (l : Z) (w : option nat) (tk : list bool) (wp : wpc) (rs : list rpc) : cfg :=
+  mkC l w tk (W wp :: map R rs).
+
+Lemma get_thr_mk_0 l w tk wp rs : get_thr (mk l w tk wp rs) 0 = W wp.
+Proof. reflexivity. Qed.
+
+Lemma get_thr_mk_S l w tk wp rs i : get_thr (mk l w tk wp rs) (S i) = R (nth i rs RDone).
+Proof. unfold get_thr, mk. simpl. apply (map_nth R). Qed.
+
+Lemma upd_mk_0 l w tk wp rs p : upd (mk l w tk wp rs) 0 (W p) = mk l w tk p rs.
+Proof. reflexivity. Qed.
+
+Lemma map_setnth {A B} (f : A -> B) i x l : map f (setnth i x l) = setnth i (f x) (map f l).
+Proof.
+  unfold setnth. rewrite map_app, firstn_map, skipn_map. reflexivity.
+Qed.
+
+Lemma upd_mk_S l w tk wp rs i p :
+  upd (mk l w tk wp rs) (S i) (R p) = mk l w tk wp (setnth i p rs).
+Proof.
+  unfold upd, mk. cbn [ls waiter tokens thr]. f_equal.
+  change (firstn (S i) (W wp :: map R rs) ++ R p :: skipn (S (S i)) (W wp :: map R rs))
+    with (W wp :: setnth i (R p) (map R rs)).
+  rewrite map_setnth. reflexivity.
+Qed.
+
+Lemma set_ls_mk l w tk wp rs v : set_ls (mk l w tk wp rs) v = mk v w tk wp rs.
+Proof. reflexivity. Qed.
+Lemma set_waiter_mk l w tk wp rs v : set_waiter (mk l w tk wp rs) v = mk l v tk wp rs.
+Proof. reflexivity. Qed.
+Lemma set_token_mk l w tk wp rs t b :
+  set_token (mk l w tk wp rs) t b = mk l w (setnth t b tk) wp rs.
+Proof. reflexivity. Qed.
+Lemma token_mk l w tk wp rs t : token (mk l w tk wp rs) t = nth t tk false.
+Proof. reflexivity. Qed.
+Lemma ls_mk l w tk wp rs : ls (mk l w tk wp rs) = l.
+Proof. reflexivity. Qed.
+Lemma nth0_setnth0 (b : bool) tk : nth 0 (setnth 0 b tk) false = b.
+Proof. reflexivity. Qed.
+
+(* ------------------------------------------------------------------------------------ *)
+(* 3. The invariant                                                                      *)
+(* ------------------------------------------------------------------------------------ *)
+
+Definition inside (p : rpc) : nat := match p with RInside | RExit => 1 | _ => 0 end.
+Definition waking (p : rpc) : nat := match p with RLoadWaiter | RUnpark _ => 1 | _ => 0 end.
+Definition nin (rs : list rpc) : nat := sumf inside rs.
+Definition nwake (rs : list rpc) : nat := sumf waking rs.
+
+(* WRITER bit: from the successful CAS to WRITER until the store of 0 *)
+Definition xbit (wp : wpc) : Z :=
+  match wp with WClearWaiter _ | WHeld _ | WUnlock _ => 1 | _ => 0 end.
+(* WAITER bit: from the successful WCasWaiter until the successful WCasWriter *)
+Definition wbit (wp : wpc) : Z :=
+  match wp with
+  | WSetWaiter _ | WLoad _ true | WCasWriter _ true _ | WPark _ => 1
+  | _ => 0
+  end.
+(* the waiter handle: from the swap-in (WSetWaiter) until the swap-out (WClearWaiter) *)
+Definition wtr (wp : wpc) : option nat :=
+  match wp with
+  | WLoad _ true | WCasWriter _ true _ | WPark _ | WClearWaiter _ => Some 0%nat
+  | _ => None
+  end.
+(* what the writer knows about the value it loaded *)
+Definition wok (wp : wpc) : Prop :=
+  match wp with
+  | WCasWriter _ _ s => only_waiter_bit s = true
+  | WCasWaiter _ waiting s => waiting = false /\ waiter_bit_clear s = true
+  | _ => True
+  end.
+(* what a reader knows *)
+Definition rok (p : rpc) : Prop :=
+  match p with
+  | RCas _ s => has_writer_or_waiter s = false
+  | RUnpark w => w = 0%nat
+  | _ => True
+  end.
+(* L3: a parked writer without a token has a wake-up on its way *)
+Definition wpark (wp : wpc) (tok0 : bool) (rs : list rpc) : Prop :=
+  match wp with
+  | WPark _ => tok0 = true \/ (0 < nin rs + nwake rs)%nat
+  | _ => True
+  end.
+
+Definition InvC (l : Z) (w : option nat) (tok0 : bool) (wp : wpc) (rs : list rpc) : Prop :=
+  l = 4 * Z.of_nat (nin rs) + 2 * wbit wp + xbit wp /\
+  w = wtr wp /\
+  wok wp /\
+  Forall rok rs /\
+  (xbit wp = 1 -> nin rs = 0%nat) /\
+  wpark wp tok0 rs.
+
+Definition Inv (c : cfg) : Prop :=
+  exists wp rs, thr c = W wp :: map R rs /\
+                InvC (ls c) (waiter c) (token c 0) wp rs.
+
+Lemma wbit_01 wp : wbit wp = 0 \/ wbit wp = 1.
+Proof. destruct wp as [| | ? [|] | ? [|] ? | | | | | | |]; simpl; auto. Qed.
+Lemma xbit_01 wp : xbit wp = 0 \/ xbit wp = 1.
+Proof. destruct wp; simpl; auto. Qed.
+
+Lemma Inv_init rounds readers : Inv (init rounds readers).
+Proof.
+  exists (WIdle rounds), (map RLoad readers). split.
+  - unfold init. cbn [thr]. rewrite map_map. reflexivity.
+  - unfold InvC. cbn [ls waiter init wbit xbit wtr wok wpark].
+    assert (Hn : nin (map RLoad readers) = 0%nat).
+    { unfold nin. induction readers as [|e es IH]; simpl; auto. }
+    rewrite Hn. repeat split; auto; try lia.
+    apply Forall_forall. intros p Hp. apply in_map_iff in Hp. destruct Hp as (e & <- & _). exact I.
+Qed.
+
+(* boolean tests to propositions *)
+Ltac b2p :=
+  repeat match goal with
+  | H : (_ =? _) = true |- _ => apply Z.eqb_eq in H
+  | H : (_ =? _) = false |- _ => apply Z.eqb_neq in H
+  | H : negb _ = true |- _ => apply negb_true_iff in H
+  | H : negb _ = false |- _ => apply negb_false_iff in H
+  | H : true = _ |- _ => symmetry in H
+  | H : false = _ |- _ => symmetry in H
+  end.
+
+Lemma reader_upd rs i p' :
+  (i < length rs)%nat ->
+  (nin (setnth i p' rs) + inside (nth i rs RDone) = nin rs + inside p')%nat /\
+  (nwake (setnth i p' rs) + waking (nth i rs RDone) = nwake rs + waking p')%nat /\
+  (Forall rok rs -> rok p' -> Forall rok (setnth i p' rs)) /\
+  (Forall rok rs -> rok (nth i rs RDone)).
+Proof.
+  intros Hi. repeat split.
+  - apply sumf_setnth. exact Hi.
+  - apply sumf_setnth. exact Hi.
+  - intros; apply Forall_setnth; assumption.
+  - intros HF. rewrite Forall_forall in HF. apply HF. apply nth_In. exact Hi.
+Qed.
+
+Ltac splits := repeat match goal with |- _ /\ _ => split end.
+
+Ltac fin :=
+  rewrite ?set_ls_mk, ?set_waiter_mk, ?set_token_mk, ?upd_mk_0, ?upd_mk_S;
+  eexists _, _; split; [reflexivity|];
+  rewrite ?token_mk, ?nth0_setnth0; cbn [ls waiter mk];
+  unfold InvC; cbn [wbit xbit wtr wok wpark] in *; splits.
+
+Lemma step_mk_inv l w tk wp rs t :
+  InvC l w (nth 0 tk false) wp rs ->
+  Inv (step (mk l w tk wp rs) t).
+Proof.
+  intros (Hl & Hw & Hok & Hrs & Hx & Hpk).
+  pose proof (wbit_01 wp) as Hw01. pose proof (xbit_01 wp) as Hx01.
+  assert (Hn0 : 0 <= Z.of_nat (nin rs)) by lia.
+  pose proof (hww_spec _ _ _ Hn0 Hw01 Hx01) as Hhww.
+  pose proof (owb_spec _ _ _ Hn0 Hw01 Hx01) as Howb.
+  pose proof (wbc_spec _ _ _ Hn0 Hw01 Hx01) as Hwbc.
+  pose proof (lor_waiter_spec _ _ _ Hn0 Hw01 Hx01) as Hlor.
+  rewrite <- Hl in Hhww, Howb, Hwbc, Hlor. clear Hw01 Hx01.
+  destruct t as [|i].
+  - unfold step. rewrite get_thr_mk_0.
+    destruct wp as [[|r]|r|r [|]|r [|] s|r|r wt s|r|r|r|r|].
+    all: cbv beta zeta; rewrite ?ls_mk, ?token_mk.
+    all: cbn [wok] in Hok; try match goal with H : _ = false /\ _ |- _ => destruct H as [-> Hok] end.
+    all: repeat match goal with
+         | |- context[if ?b then _ else _] => let E := fresh "E" in destruct b eqn:E
+         end.
+    all: fin.
+    all: b2p; try subst s.
+    all: rewrite ?Hhww, ?Howb, ?Hwbc in *; b2p; unfold WRITER; rewrite ?Hlor.
+    all: try solve [lia | assumption | exact I | reflexivity | intros; lia | congruence | auto].
+  - unfold step. rewrite get_thr_mk_S.
+    destruct (lt_dec i (length rs)) as [Hi|Hi].
+    2:{ rewrite nth_overflow by lia. fin; auto. }
+    pose proof (fun p' => reader_upd rs i p' Hi) as Hupd.
+    destruct (nth i rs RDone) as [[|e]|e s| | | |u|] eqn:Hp.
+    all: cbv beta zeta; rewrite ?ls_mk, ?token_mk, ?reader_waiter_val; change (waiter (mk l w tk wp rs)) with w.
+    all: repeat match goal with
+         | |- context[if ?b then _ else _] => let E := fresh "E" in destruct b eqn:E
+         | |- context[match ?x with Some _ => _ | None => _ end] => destruct x
+         end.
+    all: fin.
+    all: match goal with |- context[setnth _ ?p' _] =>
+           destruct (Hupd p') as (Hn & Hk & Hf & Ho); cbn [inside waking rok] in Hn, Hk, Hf, Ho; specialize (Ho Hrs)
+         | _ => idtac end.
+    all: b2p; try subst s.
+    all: rewrite ?Hhww, ?Howb, ?Hwbc in *; b2p; unfold WRITER, READER; rewrite ?Hlor.
+    all: try solve [lia | assumption | exact I | reflexivity | intros; lia | congruence | auto].
+    all: try (subst u; rewrite nth0_setnth0).
+    all: try (apply Hf; [assumption|]; cbn [rok]; destruct wp as [| | ? [|] | ? [|] ? | | | | | | |]; cbn [wtr] in Hw; congruence).
+    all: unfold wpark in *; destruct wp as [| | ? [|] | ? [|] ? | | | | | | |]; try exact I;
+         cbn [wbit xbit wtr] in *; try discriminate; b2p;
+         try (destruct Hpk as [Hpk|Hpk]; [left; assumption | right; lia]); try (right; lia); try (left; reflexivity).
+Qed.
+
+Lemma Inv_mk c wp rs : thr c = W wp :: map R rs -> c = mk (ls c) (waiter c) (tokens c) wp rs.
+Proof. destruct c as [l w tk th]. simpl. intros ->. reflexivity. Qed.
+
+Lemma Inv_step c t : Inv c -> Inv (step c t).
+Proof.
+  intros (wp & rs & Hthr & HI). rewrite (Inv_mk c wp rs Hthr).
+  apply step_mk_inv. exact HI.
+Qed.
+
+Lemma Inv_run_from c sched : Inv c -> Inv (run c sched).
+Proof.
+  revert c. induction sched as [|t sched IH]; intros c Hc; simpl; [exact Hc|].
+  apply IH. apply Inv_step. exact Hc.
+Qed.
+
+Theorem Inv_run rounds readers sched : Inv (run (init rounds readers) sched).
+Proof. apply Inv_run_from. apply Inv_init. Qed.
+
+(* ------------------------------------------------------------------------------------ *)
+(* 4. Reading the invariant back on the model's own observables                          *)
+(* ------------------------------------------------------------------------------------ *)
+
+Definition wpc_of (c : cfg) : wpc := match get_thr c 0 with W p => p | R _ => WDone end.
+Definition writer_bit (c : cfg) : Z := xbit (wpc_of c).
+Definition waiter_bit (c : cfg) : Z := wbit (wpc_of c).
+
+Lemma sumf_nth_le {A} (f : A -> nat) l i d : (i < length l)%nat -> (f (nth i l d) <= sumf f l)%nat.
+Proof.
+  revert i; induction l as [|a l IH]; intros i Hi; simpl in Hi; [lia|].
+  destruct i as [|i]; simpl; [lia|]. specialize (IH i ltac:(lia)). lia.
+Qed.
+
+Lemma sumf_pos {A} (f : A -> nat) l d :
+  (0 < sumf f l)%nat -> exists i, (i < length l)%nat /\ (0 < f (nth i l d))%nat.
+Proof.
+  induction l as [|a l IH]; simpl; intros H; [lia|].
+  destruct (f a) as [|k] eqn:Hfa.
+  - destruct (IH H) as (i & Hi & Hp). exists (S i). split; [lia|exact Hp].
+  - exists 0%nat. split; [lia|]. rewrite Hfa. lia.
+Qed.
+
+Lemma sumf_le {A} (f g : A -> nat) l : (forall a, (f a <= g a)%nat) -> (sumf f l <= sumf g l)%nat.
+Proof. intros H. induction l as [|a l IH]; simpl; [lia|]. specialize (H a). lia. Qed.
+
+Lemma sumf_add {A} (f g : A -> nat) l : (sumf f l + sumf g l = sumf (fun a => f a + g a) l)%nat.
+Proof. induction l as [|a l IH]; simpl; lia. Qed.
+
+Lemma readers_inside_mk c wp rs : thr c = W wp :: map R rs -> readers_inside c = nin rs.
+Proof.
+  intros H. unfold readers_inside. rewrite H. cbn [filter]. unfold nin. clear H.
+  induction rs as [|p rs IH]; [reflexivity|].
+  cbn [map filter sumf]. destruct p; cbn [inside length]; rewrite <- IH; reflexivity.
+Qed.
+
+Lemma writer_holds_mk c wp rs : thr c = W wp :: map R rs -> writer_holds c = (xbit wp =? 1).
+Proof.
+  intros H. unfold writer_holds. rewrite H. cbn [existsb].
+  assert (HF : existsb (fun p => match p with W (WHeld _) | W (WUnlock _) | W (WClearWaiter _) => true | _ => false end)
+                 (map R rs) = false).
+  { clear H. induction rs as [|p rs IH]; [reflexivity|]. cbn [map existsb]. exact IH. }
+  rewrite HF, orb_false_r. destruct wp; reflexivity.
+Qed.
+
+Lemma get_thr_0 c wp rs : thr c = W wp :: map R rs -> get_thr c 0 = W wp.
+Proof. intros H. unfold get_thr. rewrite H. reflexivity. Qed.
+
+Lemma get_thr_S c wp rs i : thr c = W wp :: map R rs -> get_thr c (S i) = R (nth i rs RDone).
+Proof. intros H. unfold get_thr. rewrite H. simpl. apply (map_nth R). Qed.
+
+Lemma wpc_of_mk c wp rs : thr c = W wp :: map R rs -> wpc_of c = wp.
+Proof. intros H. unfold wpc_of. rewrite (get_thr_0 c wp rs H). reflexivity. Qed.
+
+Section Reachable.
+  Variables (rounds : nat) (readers : list nat) (sched : list nat).
+  Let c := run (init rounds readers) sched.
+
+  (* Goal 1: the exact shape of lock_state.
+       readers_inside c : readers at RInside or RExit (after their +READER CAS, before their -READER);
+       waiter_bit c = 1 iff the writer is at WSetWaiter, WLoad _ true, WCasWriter _ true _ or WPark
+                    (after its successful WCasWaiter, until its successful WCasWriter);
+       writer_bit c = 1 iff the writer is at WClearWaiter, WHeld or WUnlock
+                    (after its successful CAS to WRITER, until its store of 0). *)
+  Theorem ls_shape :
+    ls c = 4 * Z.of_nat (readers_inside c) + 2 * waiter_bit c + writer_bit c.
+  Proof.
+    destruct (Inv_run rounds readers sched) as (wp & rs & Hthr & Hl & _). fold c in Hthr, Hl.
+    unfold waiter_bit, writer_bit.
+    rewrite (readers_inside_mk c wp rs Hthr), (wpc_of_mk c wp rs Hthr). exact Hl.
+  Qed.
+
+  (* the waiter handle is the writer's, exactly between the two swaps *)
+  Theorem waiter_shape : waiter c = wtr (wpc_of c).
+  Proof.
+    destruct (Inv_run rounds readers sched) as (wp & rs & Hthr & _ & Hw & _). fold c in Hthr, Hw.
+    rewrite (wpc_of_mk c wp rs Hthr). exact Hw.
+  Qed.
+
+  (* only thread 0 is a writer; the threads above it are readers *)
+  Theorem thread_roles t :
+    match get_thr c t with W _ => t = 0%nat | R _ => t <> 0%nat end.
+  Proof.
+    destruct (Inv_run rounds readers sched) as (wp & rs & Hthr & _). fold c in Hthr.
+    destruct t as [|i].
+    - rewrite (get_thr_0 c wp rs Hthr). reflexivity.
+    - rewrite (get_thr_S c wp rs i Hthr). discriminate.
+  Qed.
+
+  (* Goal 2 *)
+  Theorem mutual_exclusion : writer_holds c = true -> readers_inside c = 0%nat.
+  Proof.
+    destruct (Inv_run rounds readers sched) as (wp & rs & Hthr & _ & _ & _ & _ & Hx & _). fold c in Hthr.
+    rewrite (readers_inside_mk c wp rs Hthr), (writer_holds_mk c wp rs Hthr).
+    intros H. apply Z.eqb_eq in H. exact (Hx H).
+  Qed.
+
+  Theorem mutual_exclusion_conv : readers_inside c <> 0%nat -> writer_holds c = false.
+  Proof.
+    intros H. destruct (writer_holds c) eqn:E; [|reflexivity].
+    exfalso. apply H. apply mutual_exclusion. exact E.
+  Qed.
+
+  (* the same, thread by thread: while some reader is inside the tree the writer is not in its
+     critical section *)
+  Theorem reader_inside_excludes_writer t r :
+    get_thr c t = R RInside \/ get_thr c t = R RExit ->
+    get_thr c 0 <> W (WHeld r) /\ get_thr c 0 <> W (WUnlock r) /\ get_thr c 0 <> W (WClearWaiter r).
+  Proof.
+    intros Ht.
+    destruct (Inv_run rounds readers sched) as (wp & rs & Hthr & _ & _ & _ & _ & Hx & _). fold c in Hthr.
+    assert (Hn : (0 < nin rs)%nat).
+    { destruct t as [|i].
+      - rewrite (get_thr_0 c wp rs Hthr) in Ht. destruct Ht; discriminate.
+      - rewrite (get_thr_S c wp rs i Hthr) in Ht.
+        destruct (lt_dec i (length rs)) as [Hi|Hi].
+        + pose proof (sumf_nth_le inside rs i RDone Hi) as Hle. fold (nin rs) in Hle.
+          destruct Ht as [Ht|Ht]; injection Ht as Ht; rewrite Ht in Hle; simpl in Hle; lia.
+        + rewrite nth_overflow in Ht by lia. destruct Ht; discriminate. }
+    rewrite (get_thr_0 c wp rs Hthr).
+    repeat split; intros Heq; injection Heq as ->; simpl in Hx; specialize (Hx eq_refl); lia.
+  Qed.
+
+  (* Goal 4: the spin branch of contended_lock is dead code: with waiting = false the WAITER bit
+     is clear, so one of the two CAS branches is taken. *)
+  Theorem unreachable_spin t r :
+    get_thr c t = W (WLoad r false) -> waiter_bit_clear (ls c) = true.
+  Proof.
+    intros Ht.
+    destruct (Inv_run rounds readers sched) as (wp & rs & Hthr & Hl & _). fold c in Hthr, Hl.
+    destruct t as [|i].
+    - rewrite (get_thr_0 c wp rs Hthr) in Ht. injection Ht as ->. rewrite Hl.
+      rewrite wbc_spec; simpl; auto; lia.
+    - rewrite (get_thr_S c wp rs i Hthr) in Ht. discriminate.
+  Qed.
+
+  (* and with waiting = true the WAITER bit is still set, so the writer never re-enters the
+     WCasWaiter branch: it either takes the lock or parks *)
+  Theorem waiting_keeps_waiter_bit t r :
+    get_thr c t = W (WLoad r true) -> waiter_bit_clear (ls c) = false.
+  Proof.
+    intros Ht.
+    destruct (Inv_run rounds readers sched) as (wp & rs & Hthr & Hl & _). fold c in Hthr, Hl.
+    destruct t as [|i].
+    - rewrite (get_thr_0 c wp rs Hthr) in Ht. injection Ht as ->. rewrite Hl.
+      rewrite wbc_spec; simpl; auto; lia.
+    - rewrite (get_thr_S c wp rs i Hthr) in Ht. discriminate.
+  Qed.
+
+  (* Goal 3, the invariant L3 itself: a writer about to block has a wake-up on its way *)
+  Theorem no_lost_wakeup r :
+    get_thr c 0 = W (WPark r) -> token c 0 = false ->
+    exists t, get_thr c t = R RInside \/ get_thr c t = R RExit \/
+              get_thr c t = R RLoadWaiter \/ get_thr c t = R (RUnpark 0).
+  Proof.
+    intros Hp Htok.
+    destruct (Inv_run rounds readers sched) as (wp & rs & Hthr & _ & _ & _ & Hrs & _ & Hpk). fold c in Hthr, Hpk.
+    rewrite (get_thr_0 c wp rs Hthr) in Hp. injection Hp as ->. simpl in Hpk.
+    destruct Hpk as [Hpk|Hpk]; [congruence|].
+    unfold nin, nwake in Hpk. rewrite sumf_add in Hpk.
+    destruct (sumf_pos _ rs RDone Hpk) as (i & Hi & Hpos).
+    exists (S i). rewrite (get_thr_S c _ rs i Hthr).
+    assert (Hok : rok (nth i rs RDone)).
+    { rewrite Forall_forall in Hrs. apply Hrs. apply nth_In. exact Hi. }
+    destruct (nth i rs RDone); simpl in Hpos, Hok; try lia; subst; auto.
+  Qed.
+
+  (* Goal 3: deadlock freedom *)
+  Theorem deadlock_free : all_done c = false -> some_enabled c = true.
+  Proof.
+    intros Hnd.
+    destruct (Inv_run rounds readers sched) as (wp & rs & Hthr & _ & _ & _ & _ & _ & Hpk). fold c in Hthr, Hpk.
+    unfold some_enabled. apply existsb_exists.
+    assert (Hlen : length (thr c) = S (length rs)) by (rewrite Hthr; simpl; rewrite map_length; reflexivity).
+    (* a reader that is not done is enabled *)
+    assert (Hreader : (0 < sumf (fun p => match p with RDone => 0 | _ => 1 end) rs)%nat ->
+                      exists x, In x (seq 0 (length (thr c))) /\ enabled c x = true).
+    { intros Hpos. destruct (sumf_pos _ rs RDone Hpos) as (i & Hi & Hp).
+      exists (S i). split; [apply in_seq; lia|].
+      unfold enabled. rewrite (get_thr_S c wp rs i Hthr).
+      destruct (nth i rs RDone); try reflexivity. lia. }
+    destruct (enabled c 0) eqn:Hen.
+    - exists 0%nat. split; [apply in_seq; lia|exact Hen].
+    - unfold enabled in Hen. rewrite (get_thr_0 c wp rs Hthr) in Hen.
+      destruct wp; try discriminate.
+      + (* parked without a token *)
+        simpl in Hpk. destruct Hpk as [Hpk|Hpk]; [congruence|].
+        apply Hreader. unfold nin, nwake in Hpk. rewrite sumf_add in Hpk.
+        eapply Nat.lt_le_trans; [exact Hpk|]. apply sumf_le. intros []; simpl; lia.
+      + (* writer done: some reader is not *)
+        apply Hreader. unfold all_done in Hnd. rewrite Hthr in Hnd. cbn [forallb done] in Hnd.
+        rewrite andb_true_l in Hnd. clear - Hnd.
+        induction rs as [|p rs IH]; [discriminate|].
+        cbn [map forallb sumf] in *. destruct p; try lia.
+        simpl in Hnd. specialize (IH Hnd). lia.
+  Qed.
+
+End Reachable.
